@@ -16,6 +16,18 @@ TEXT = {
  "C07": ("Lean theorems over mirrors of the decimal/ip/datetime/duration parsers and operations (written-out recognisers + checked arithmetic); the model is the "
          "definition of 'exact': any disagreement with the real extension functions on generated strings/values is a failing input.",
          "proof over a hand-written model; std::net / chrono / regex are inside the implementation under check and are re-defined in the model"),
+ "C03": ("Lean model `typeOf` mirroring SingleEnvTypechecker::typecheck case by case (strict and permissive mode, capability sets, singleton-bool short "
+         "circuits, has/getAttr/tags, in incl. action hierarchy, is, == with strict restrictions, least upper bounds, literals, extension calls, "
+         "per-request-environment driver with template linking and the impossible-policy rule). Soundness (`typeOf_sound`: value inhabits the static "
+         "type or the error is entity/overflow/extension; capabilities hold when true, and unconditionally when typed True) is PROVED ONLY FOR THE "
+         "FRAGMENT named in Thm/C03.lean (`InFragment`: literals, variables, && || ! if, unary -, + - *, has/. on records and entities with "
+         "capabilities), with corollaries accepted => boolean or permitted error, typed False / impossible => never satisfied. The rest of the "
+         "typechecker is covered by the differential run (model vs Typechecker::typecheck_by_request_env per policy, environment and mode) and by "
+         "the implementation-level soundness search: every strict-accepted generated policy is evaluated on conformant requests/stores (Rust's own "
+         "schema-based validation) and every evaluated subexpression of the typed AST must inhabit its annotated type; plus non-vacuity (documented "
+         "has/hasTag guard idioms accepted) and strict-accepted => permissive-accepted on all generated policies.",
+         "proof over a hand-written model for a stated fragment only; the remaining constructs are sampled (generators in harness/src/gen_typed.rs, "
+         "gen_schema.rs); the resolved schema is serialised from Rust's ValidatorSchema; strict=>permissive is tested, not proved"),
  "C11": ("Lean theorems over mirrors of the schema-conformance checkers (typecheck_restricted_expr_against_schematype, Type::typecheck_restricted_expr, "
          "validate_entity with attributes/ancestors/tags/enum ids/actions, validate_request with scope variables and context): each checker accepts exactly "
          "the data satisfying a declarative specification (InstanceOfType, ConformsEntity, ConformsContext, ConformsRequest), and every single-fault class of "
